@@ -77,19 +77,21 @@ func readErrName(err error) string {
 
 // stream is one direction A -> B of a REAL established EncryptedConn pair with the interposer's hands on the wire.
 type stream struct {
-	o       *drv.Out
-	a, b    *p2p.EncryptedConn
-	raw     *Raw // when the sender is hand-driven (malformed frames by a key holder)
-	wire    *Pipe
-	rev     *Pipe       // the opposite direction
-	hs      [2][][]byte // ciphertext frames recorded during the encrypted part of the handshake: [0] this direction, [1] the opposite one
-	hsFault bool
-	sizes   []int // chunk size of every honest frame ever written on this direction (independent of the code: min(1024, rest))
-	written []byte
-	got     []byte
-	faulted bool
-	errored bool
-	ops     []string
+	o            *drv.Out
+	a, b         *p2p.EncryptedConn
+	raw          *Raw // when the sender is hand-driven (malformed frames by a key holder)
+	wire         *Pipe
+	rev          *Pipe       // the opposite direction
+	hs           [2][][]byte // ciphertext frames recorded during the encrypted part of the handshake: [0] this direction, [1] the opposite one
+	hsFault      bool
+	sigOverride  string // scenario-specific signature for the prefix oracle
+	noPrefixFail bool   // the documented 2^64-1 wrap: observation, not a failure
+	sizes        []int  // chunk size of every honest frame ever written on this direction (independent of the code: min(1024, rest))
+	written      []byte
+	got          []byte
+	faulted      bool
+	errored      bool
+	ops          []string
 }
 
 func (s *stream) op(op, res string) {
@@ -147,7 +149,12 @@ func (s *stream) read(n int) string {
 			if s.hsFault {
 				sig = "C17:handshake-frame-replayed-as-data"
 			}
-			s.o.Fail(sig, fmt.Sprintf("after %d delivered bytes the stream is no longer a prefix of the %d written", len(s.got), len(s.written)), s.ops)
+			if s.sigOverride != "" {
+				sig = s.sigOverride
+			}
+			if !s.noPrefixFail {
+				s.o.Fail(sig, fmt.Sprintf("after %d delivered bytes the stream is no longer a prefix of the %d written", len(s.got), len(s.written)), s.ops)
+			}
 		}
 	}
 	s.op(fmt.Sprintf("r %d", n), res)
@@ -379,6 +386,7 @@ func Run(o *drv.Out) {
 	randomStreams(o)
 	faultCases(o)
 	handshakeReplayCases(o)
+	counterBoundaryCases(o)
 	rawFrameCases(o)
 	handshakeCases(o)
 }
